@@ -159,10 +159,12 @@ REGISTRY = {
                       'grid and the arguments; structure-only calls keep '
                       'the flattened timelines" checked on every small '
                       'well-formed circuit; bounded stand-in, not a proof',
-        'level_note': 'bounded: every well-formed circuit over the stated alphabet on 2-3 qudits with <= 2 cycles (quick; the largest layer sampled with VERIF_SEED) / up to 4 qudits and 3 cycles (thorough, exhaustive) times every argument value incl. out-of-range and negative indices; histories follow by induction only while intermediate circuits stay inside the scope; no unbounded proof of the 100-line mutators',
+        'level_note': 'bounded: every well-formed circuit over the stated alphabet on 2-3 qudits with <= 2 cycles (quick; the largest layer sampled with VERIF_SEED) / up to 4 qudits and 3 cycles (thorough, exhaustive) times every argument value incl. out-of-range and negative indices; histories follow by induction only while intermediate circuits stay inside the scope; no unbounded proof of the 100-line mutators; proved for all inputs (pyvc): the CycleInterval arithmetic under the region walk (overlaps, intersection, union, <, in, len against sets of cycle indices)',
         'parts': [
             {'kind': 'custom', 'module': 'pybound.circ_checks',
              'func': 'run_c04'},
+            {'kind': 'custom', 'module': 'pybound.interval_checks'},
+            {'kind': 'pyvc', 'module': 'contracts.c04'},
         ],
         'rule': 'same pre-states and calls as C05; non-trivial = the call '
                 'was accepted; equal per-qudit timelines imply the same set '
